@@ -210,14 +210,14 @@ HANG_LIMIT = 25          # after that many hangs the rest of the peg terms of th
 
 
 def run_term(p, w):
-    signal.setitimer(signal.ITIMER_REAL, 2.0, 0.02)
+    signal.setitimer(signal.ITIMER_VIRTUAL, 2.0, 0.02)
     try:
         try:
             return _run_term(p, w)
         finally:
-            signal.setitimer(signal.ITIMER_REAL, 0)
+            signal.setitimer(signal.ITIMER_VIRTUAL, 0)
     except Hang:
-        signal.setitimer(signal.ITIMER_REAL, 0)
+        signal.setitimer(signal.ITIMER_VIRTUAL, 0)
         STATS["hangs"] = STATS.get("hangs", 0) + 1
         return {"ok": False, "pos": -1, "v": []}, {"ok": False, "v": []}
 
@@ -385,7 +385,7 @@ def jsn(job):
 
 
 def main():
-    signal.signal(signal.SIGALRM, _alarm)
+    signal.signal(signal.SIGVTALRM, _alarm)
     with open(sys.argv[1]) as f:
         payload = json.load(f)
     traces = [{"peg": peg, "tag": tag, "json": jsn}[job["kind"]](job) for job in payload["jobs"]]
